@@ -140,6 +140,29 @@ impl World {
                             _ => "none",
                         };
                         o.insert("fault".into(), json!(fault));
+                        // the object store as it is now (names only), for the property level
+                        let (names, latest): (Vec<String>, Option<String>) = {
+                            let st = self.store.lock().unwrap();
+                            (
+                                st.objects.keys().cloned().collect(),
+                                st.objects
+                                    .get("latest")
+                                    .map(|o| String::from_utf8_lossy(&o.value).to_string()),
+                            )
+                        };
+                        let mut objs = vec![];
+                        for n in names {
+                            if n.starts_with("v-") || n.starts_with("s-") {
+                                objs.push(self.ids.name(&n));
+                            }
+                        }
+                        let lat = match latest {
+                            Some(v) => self.ids.id(&v),
+                            None => -1,
+                        };
+                        let o = ev.as_object_mut().unwrap();
+                        o.insert("objs".into(), json!(objs));
+                        o.insert("latest".into(), json!(lat));
                         self.lines.push(ev);
                     }
                 }
